@@ -335,3 +335,8 @@ Proof.
   intros l t H. cbn [toy normalize_validate] in H. apply (f_equal (@List.length N)) in H.
   rewrite app_length in H. destruct t; [reflexivity|]. cbn [List.length] in H. lia.
 Qed.
+
+(* a borrowed result is a fixed point *)
+Lemma to_ascii_idem_borrowed A cfg d deny hy dns r :
+  to_ascii A cfg d deny hy dns = Ok (true, r) -> to_ascii A cfg r deny hy dns = Ok (true, r).
+Proof. intros H. pose proof (to_ascii_borrow A cfg d deny hy dns r H) as E. subst r. exact H. Qed.
